@@ -465,11 +465,18 @@ class simplify_chained_calls(FuncADLNodeTransformer):
         """
         if type(call_node.func) is ast.Lambda:
             arg_asts = [self.visit(a) for a in call_node.args]
+            func = call_node.func
+            # The body is rewritten (in places more than once) while the parameters stand for
+            # the arguments: a parameter name that occurs in one of the arguments would be
+            # replaced inside the argument as well. Use new parameter names in that case.
+            names_in_args = {n.id for a in arg_asts for n in ast.walk(a) if isinstance(n, ast.Name)}
+            if any(p.arg in names_in_args for p in func.args.args):
+                func = make_args_unique(func)
             with stack_frame(self._arg_stack):
-                for a_name, arg in zip(call_node.func.args.args, arg_asts):
+                for a_name, arg in zip(func.args.args, arg_asts):
                     self._arg_stack.define_name(a_name.arg, arg)
                 # Now, evaluate the expression, and then lift it.
-                return self.visit(call_node.func.body)
+                return self.visit(func.body)
         elif _is_method_call_on_first(call_node):
             return self.select_method_call_on_first(call_node)
         else:
